@@ -333,8 +333,15 @@ func decide(c layoutCase) *rp.Fail {
 		if err := codec.Unmarshal(append([]byte(nil), zeroMsg...), fresh.Interface()); err == nil {
 			dirty := reflect.New(typ)
 			if err := codec.Unmarshal(append([]byte(nil), enc...), dirty.Interface()); err == nil {
+				// (a copy of the struct is how a caller keeps a decoded value while the variable is used for the next message)
+				kept := reflect.New(typ).Elem()
+				kept.Set(dirty.Elem())
+				keptBefore := fv.CanonAll(kept)
 				if p := try(func() { err = codec.Unmarshal(append([]byte(nil), zeroMsg...), dirty.Interface()) }); p != nil || err != nil {
 					return rp.Failf(site+"/dirty-target", "layout %s: decoding the all-zero message into a variable that held other values failed: %v %v", describe(c), p, err)
+				}
+				if d := fv.FirstDiff(keptBefore, fv.CanonAll(kept)); d != "" {
+					return rp.Failf(site+"/earlier-result-changed-by-next-decode", "layout %s: a copy of the decoded value changed when the next message (all-zero payload) was decoded into the same variable: %s", describe(c), d)
 				}
 				for i, f := range c.Fields {
 					if f.Kind[0] == '*' {
